@@ -542,7 +542,8 @@ Proof.
     cbn [snd]. rewrite IH.
     + rewrite <- app_assoc. reflexivity.
     + split; [|split].
-      * rewrite <- app_assoc. exact Hid.
+      * rewrite <- app_assoc. cbn [app]. rewrite map_app. cbn [map]. rewrite set_prec_id.
+        rewrite map_app in Hid. exact Hid.
       * intros x Hx. apply Hne. right; exact Hx.
       * rewrite <- app_assoc. exact Hk.
 Qed.
@@ -576,4 +577,421 @@ Proof.
     + intros x y Hx Hy. apply Hk5.
       * apply in_flat_map in Hx as (p & _ & Hx). apply filter_In in Hx. tauto.
       * apply in_flat_map in Hy as (p & _ & Hy). apply filter_In in Hy. tauto.
+Qed.
+
+(* ---------------------------------------------------------------- service-intentions config entries *)
+
+Definition skey (s : src) : string * string := (s_peer s, s_name s).
+Definition lname (e : entry) : string := lower (e_name e).
+Definition enames (st : list entry) : list string := map e_name st.
+
+Definition src_ok (en : string) (s : src) : Prop := s_prec s = prec_of dflt (s_name s) dflt en.
+
+(* an entry as Normalize + Validate leave it *)
+Definition entry_ok (e : entry) : Prop :=
+  validate e = None /\ forall s, In s (e_srcs e) -> src_ok (e_name e) s.
+
+(* the config-entry table: one entry per lower-cased name *)
+Definition store_ok (st : list entry) : Prop :=
+  NoDup (map lname st) /\ forall e, In e st -> entry_ok e.
+
+Definition src_valid (dw : bool) (s : src) : bool :=
+  (negb (String.eqb (s_name s) "")
+   && negb (negb (is_wild (s_name s)) && has_star (s_name s))
+   && negb (has_star (s_peer s))
+   && negb (N.eqb (s_nperm s) 0 && negb (action_eqb (s_act s) Allow || action_eqb (s_act s) Deny))
+   && negb (negb (N.eqb (s_nperm s) 0) && negb (action_eqb (s_act s) NoAct))
+   && negb (dw && negb (N.eqb (s_nperm s) 0)))%bool.
+
+Lemma src_key_eqb_iff a b : src_key_eqb a b = true <-> skey a = skey b.
+Proof.
+  unfold src_key_eqb, skey. rewrite andb_true_iff, !String.eqb_eq. split; [intros [-> ->]; reflexivity|intros [= -> ->]; auto].
+Qed.
+
+Lemma validate_srcs_none dw l : forall seen,
+  validate_srcs dw seen l = None <->
+  forallb (src_valid dw) l = true /\ NoDup (map skey l) /\
+  (forall s, In s l -> ~ In (skey s) (map skey seen)).
+Proof.
+  induction l as [|a l IH]; intros seen; cbn [validate_srcs forallb map].
+  - split; [intros _; repeat split; [constructor|intros s []]|reflexivity].
+  - unfold src_valid at 1.
+    destruct (String.eqb (s_name a) ""); cbn [negb andb]; [split; [discriminate|intros [H _]; discriminate]|].
+    destruct (negb (is_wild (s_name a)) && has_star (s_name a))%bool; cbn [negb andb]; [split; [discriminate|intros [H _]; discriminate]|].
+    destruct (has_star (s_peer a)); cbn [negb andb]; [split; [discriminate|intros [H _]; discriminate]|].
+    destruct (N.eqb (s_nperm a) 0 && negb (action_eqb (s_act a) Allow || action_eqb (s_act a) Deny))%bool; cbn [negb andb]; [split; [discriminate|intros [H _]; discriminate]|].
+    destruct (negb (N.eqb (s_nperm a) 0) && negb (action_eqb (s_act a) NoAct))%bool; cbn [negb andb]; [split; [discriminate|intros [H _]; discriminate]|].
+    destruct (dw && negb (N.eqb (s_nperm a) 0))%bool; cbn [negb andb]; [split; [discriminate|intros [H _]; discriminate]|].
+    destruct (existsb (src_key_eqb a) seen) eqn:X.
+    + split; [discriminate|]. intros (_ & _ & H). exfalso.
+      apply existsb_exists in X as (x & Hx & Ex). apply src_key_eqb_iff in Ex.
+      apply (H a (or_introl eq_refl)). rewrite Ex. apply in_map. exact Hx.
+    + rewrite IH. split.
+      * intros (Hv & Hn & Hs). split; [exact Hv|]. split.
+        -- constructor; [|exact Hn]. intros Hin. apply in_map_iff in Hin as (x & Ex & Hx).
+           apply (Hs x Hx). rewrite Ex. left. reflexivity.
+        -- intros s [<-|Hs'] Hin.
+           ++ apply in_map_iff in Hin as (x & Ex & Hx).
+              assert (src_key_eqb a x = true) as K by (apply src_key_eqb_iff; congruence).
+              assert (existsb (src_key_eqb a) seen = true) by (apply existsb_exists; eauto). congruence.
+           ++ apply (Hs s Hs'). right. exact Hin.
+      * intros (Hv & Hn & Hs). inversion Hn as [|? ? Hnotin Hn']; subst. split; [exact Hv|]. split; [exact Hn'|].
+        intros s Hs' [E|Hin].
+        -- apply Hnotin. rewrite E. apply in_map. exact Hs'.
+        -- apply (Hs s (or_intror Hs')). exact Hin.
+Qed.
+
+Definition ename_valid (n : string) : bool :=
+  (negb (String.eqb n "") && negb (negb (is_wild n) && has_star n))%bool.
+
+Lemma validate_none e :
+  validate e = None <->
+  ename_valid (e_name e) = true /\ e_srcs e <> [] /\
+  forallb (src_valid (is_wild (e_name e))) (e_srcs e) = true /\ NoDup (map skey (e_srcs e)).
+Proof.
+  unfold validate, ename_valid.
+  destruct (String.eqb (e_name e) ""); cbn [negb andb]; [split; [discriminate|intros [H _]; discriminate]|].
+  destruct (negb (is_wild (e_name e)) && has_star (e_name e))%bool; cbn [negb andb]; [split; [discriminate|intros [H _]; discriminate]|].
+  destruct (e_srcs e) as [|a l] eqn:E.
+  - split; [discriminate|]. intros (_ & H & _). congruence.
+  - rewrite validate_srcs_none. split.
+    + intros (Hv & Hn & _). repeat split; try assumption. discriminate.
+    + intros (_ & _ & Hv & Hn). repeat split; try assumption. intros s _ [].
+Qed.
+
+Lemma in_call st i :
+  In i (call st) <-> exists e s, In e st /\ In s (e_srcs e) /\ i = to_ixn e s.
+Proof.
+  unfold call, to_ixns. rewrite in_flat_map. split.
+  - intros (e & He & Hi). apply in_map_iff in Hi as (s & <- & Hs). eauto.
+  - intros (e & s & He & Hs & ->). exists e. split; [exact He|]. apply in_map. exact Hs.
+Qed.
+
+Lemma config_all_wf st : store_ok st -> forall i, In i (call st) -> wf i.
+Proof.
+  intros [_ Hok] i Hi. apply in_call in Hi as (e & s & He & Hs & ->).
+  unfold wf. cbn [to_ixn i_sns i_sname i_dns i_dname i_prec]. rewrite dflt_not_wild.
+  split; [discriminate|]. split; [discriminate|]. apply (Hok e He). exact Hs.
+Qed.
+
+Lemma config_all_key st : store_ok st ->
+  forall i j, In i (call st) -> In j (call st) -> key5 i = key5 j -> i = j.
+Proof.
+  intros [Hnd Hok] i j Hi Hj E.
+  apply in_call in Hi as (e & s & He & Hs & ->). apply in_call in Hj as (e' & s' & He' & Hs' & ->).
+  unfold key5 in E. cbn [to_ixn i_peer i_sns i_sname i_dns i_dname] in E. injection E as E1 E2 E3.
+  assert (e = e') as <-.
+  { apply (nodup_map_inj lname st); try assumption. unfold lname. congruence. }
+  assert (s = s') as <-; [|reflexivity].
+  destruct (Hok e He) as [Hv _]. apply validate_none in Hv as (_ & _ & _ & Hn).
+  apply (nodup_map_inj skey (e_srcs e)); try assumption. unfold skey. congruence.
+Qed.
+
+Lemma lookup_some st n e : lookup st n = Some e -> In e st /\ lower (e_name e) = lower n.
+Proof.
+  unfold lookup. intros H. apply find_some in H as [Hi He]. split; [exact Hi|].
+  unfold name_eqb in He. apply String.eqb_eq. exact He.
+Qed.
+
+Lemma lookup_unique st n e :
+  NoDup (map lname st) -> In e st -> lower (e_name e) = lower n -> lookup st n = Some e.
+Proof.
+  unfold lookup. induction st as [|x st IH]; cbn [map find]; intros Hn Hi E; [destruct Hi|].
+  inversion Hn as [|? ? Hnotin Hn']; subst.
+  unfold name_eqb at 1. destruct (String.eqb_spec (lower (e_name x)) (lower n)) as [Ex|Ex].
+  - destruct Hi as [->|Hi]; [reflexivity|]. exfalso. apply Hnotin.
+    unfold lname at 1. rewrite Ex, <- E. apply (in_map lname). exact Hi.
+  - destruct Hi as [->|Hi]; [congruence|]. apply IH; assumption.
+Qed.
+
+Lemma lookup_none st n : lookup st n = None -> forall e, In e st -> lower (e_name e) <> lower n.
+Proof.
+  unfold lookup. intros H e He E. apply (find_none _ _ H) in He. unfold name_eqb in He.
+  rewrite E, String.eqb_refl in He. discriminate.
+Qed.
+
+Lemma in_match_names m n : In m (match_names n) <-> m = wild \/ (is_wild n = false /\ m = n).
+Proof.
+  unfold match_names. destruct (is_wild n) eqn:A; cbn [In]; intuition (try discriminate; auto).
+Qed.
+
+Lemma cmatch_dst_in st d j :
+  store_ok st -> coherent (enames st ++ [d]) ->
+  (In j (cmatch_dst st d) <-> In j (call st) /\ wild_or_eq (i_dname j) d = true).
+Proof.
+  intros [Hnd Hok] C. unfold cmatch_dst. rewrite sort_ixns_in, in_flat_map, wild_or_eq_true. split.
+  - intros (m & Hm & Hj). destruct (lookup st m) as [e|] eqn:L; [|destruct Hj].
+    apply lookup_some in L as [He El]. unfold to_ixns in Hj. apply in_map_iff in Hj as (s & <- & Hs).
+    split; [apply in_call; eauto|]. cbn [to_ixn i_dname].
+    apply in_match_names in Hm as [->|[A ->]].
+    + left. apply lower_wild_inv. exact El.
+    + right. apply C; [apply in_or_app; left; apply in_map; exact He|apply in_or_app; right; left; reflexivity|exact El].
+  - intros [Hj Hd]. apply in_call in Hj as (e & s & He & Hs & ->). cbn [to_ixn i_dname] in Hd.
+    exists (e_name e). split.
+    + apply in_match_names. destruct Hd as [Hd|Hd]; [left; exact Hd|].
+      destruct (is_wild d) eqn:A; [left; apply is_wild_true in A; congruence|right; auto].
+    + rewrite (lookup_unique st (e_name e) e Hnd He eq_refl). unfold to_ixns. apply in_map. exact Hs.
+Qed.
+
+Lemma cmatch_src_in st s j :
+  In j (cmatch_src st s) <->
+  exists m e x, In m (match_names s) /\ In e st /\ has_local_src e m = true /\
+                In x (e_srcs e) /\ s_name x = m /\ j = to_ixn e x.
+Proof.
+  unfold cmatch_src. rewrite sort_ixns_in, in_flat_map. split.
+  - intros (m & Hm & Hj). apply in_flat_map in Hj as (e & He & Hj).
+    destruct (has_local_src e m) eqn:L; [|destruct Hj].
+    apply in_map_iff in Hj as (x & <- & Hx). apply filter_In in Hx as [Hx Ex]. apply String.eqb_eq in Ex.
+    exists m, e, x. auto 7.
+  - intros (m & e & x & Hm & He & L & Hx & Ex & ->). exists m. split; [exact Hm|].
+    apply in_flat_map. exists e. split; [exact He|]. rewrite L. apply in_map. apply filter_In.
+    split; [exact Hx|]. apply String.eqb_eq. exact Ex.
+Qed.
+
+(* CE: every config-entry intention lives in the "default" namespace; so do the queries *)
+Theorem config_route2 st peer s d :
+  store_ok st -> coherent (enames st ++ [d]) ->
+  decided (call st) peer dflt s dflt d (find (authz_match MSrc s dflt peer) (cmatch_dst st d)).
+Proof.
+  intros Hst C.
+  apply route_generic; [apply config_all_wf; exact Hst|apply config_all_key; exact Hst|apply sort_ixns_sorted| |].
+  - intros j Hj Pj. apply (cmatch_dst_in st d j Hst C) in Hj as [Hj Dj]. split; [exact Hj|].
+    unfold covers. rewrite Pj. cbn [andb authz_match].
+    apply in_call in Hj as (e & x & _ & _ & ->). cbn [to_ixn i_dns i_dname] in *.
+    rewrite Dj. reflexivity.
+  - intros j Hj Cj. unfold covers in Cj. apply andb_true_iff in Cj as [Sj Dj]. split; [|exact Sj].
+    apply (cmatch_dst_in st d j Hst C). split; [exact Hj|].
+    cbn [authz_match] in Dj. apply andb_true_iff in Dj. tauto.
+Qed.
+
+Theorem config_route1 st s d :
+  store_ok st ->
+  decided (call st) "" dflt s dflt d (find (authz_match MDst d dflt "") (cmatch_src st s)).
+Proof.
+  intros Hst.
+  apply route1_generic; [apply config_all_wf; exact Hst|apply config_all_key; exact Hst|apply sort_ixns_sorted| |].
+  - intros j Hj. pose proof Hj as Hjl.
+    apply cmatch_src_in in Hj as (m & e & x & Hm & He & L & Hx & Ex & ->).
+    split; [apply in_call; eauto|]. split.
+    + cbn [authz_match to_ixn i_peer i_sns i_sname]. rewrite String.eqb_refl. cbn [andb].
+      apply andb_true_iff. split; [apply wild_or_eq_true; right; reflexivity|].
+      apply wild_or_eq_true. apply in_match_names in Hm as [->|[_ ->]]; [left|right]; exact Ex.
+    + unfold has_local_src in L. apply existsb_exists in L as (y & Hy & Ey).
+      apply andb_true_iff in Ey as [Ey1 Ey2]. apply String.eqb_eq in Ey1, Ey2.
+      exists (to_ixn e y). split.
+      * apply cmatch_src_in. exists m, e, y. repeat split; try assumption.
+        unfold has_local_src. apply existsb_exists. exists y. split; [exact Hy|].
+        rewrite Ey1, Ey2, !String.eqb_refl. reflexivity.
+      * cbn [to_ixn i_peer i_sns i_sname i_dns i_dname]. repeat split; try assumption. congruence.
+  - intros j Hj Cj. apply in_call in Hj as (e & x & He & Hx & ->).
+    unfold covers in Cj. apply andb_true_iff in Cj as [Sj _].
+    cbn [authz_match to_ixn i_peer i_sns i_sname] in Sj. rewrite !andb_true_iff in Sj.
+    destruct Sj as [[Pe _] Sn]. apply String.eqb_eq in Pe. apply wild_or_eq_true in Sn.
+    apply cmatch_src_in. exists (s_name x), e, x. repeat split; try assumption.
+    + apply in_match_names. destruct Sn as [Sn|Sn]; [left; exact Sn|].
+      destruct (is_wild s) eqn:A; [left; apply is_wild_true in A; congruence|right; auto].
+    + unfold has_local_src. apply existsb_exists. exists x. split; [exact Hx|].
+      rewrite Pe, !String.eqb_refl. reflexivity.
+Qed.
+
+(* ---------------------------------------------------------------- match lists as sorted filters *)
+
+Lemma filter_true_id {A} (l : list A) : filter (fun _ => true) l = l.
+Proof. induction l as [|a l IH]; cbn [filter]; [reflexivity|]. rewrite IH. reflexivity. Qed.
+
+Lemma flat_map_nil {A B} (l : list A) : flat_map (fun _ => @nil B) l = [].
+Proof. induction l; cbn; auto. Qed.
+
+Lemma flat_map_ext_in {A B} (f g : A -> list B) l :
+  (forall x, In x l -> f x = g x) -> flat_map f l = flat_map g l.
+Proof.
+  induction l as [|a l IH]; intros H; cbn [flat_map]; [reflexivity|].
+  rewrite (H a (or_introl eq_refl)), IH; [reflexivity|]. intros x Hx. apply H. right; exact Hx.
+Qed.
+
+Lemma flat_map_perm_ext {A B} (f g : A -> list B) l :
+  (forall x, In x l -> Permutation (f x) (g x)) -> Permutation (flat_map f l) (flat_map g l).
+Proof.
+  induction l as [|a l IH]; intros H; cbn [flat_map]; [reflexivity|].
+  apply Permutation_app; [apply H; left; reflexivity|]. apply IH. intros x Hx. apply H. right; exact Hx.
+Qed.
+
+Lemma filter_flat_map {A B} (P : B -> bool) (f : A -> list B) l :
+  filter P (flat_map f l) = flat_map (fun x => filter P (f x)) l.
+Proof.
+  induction l as [|a l IH]; cbn [flat_map filter]; [reflexivity|]. rewrite filter_app, IH. reflexivity.
+Qed.
+
+Lemma filter_map_comm {A B} (P : B -> bool) (f : A -> B) l :
+  filter P (map f l) = map f (filter (fun x => P (f x)) l).
+Proof.
+  induction l as [|a l IH]; cbn [map filter]; [reflexivity|]. destruct (P (f a)); cbn [map]; rewrite IH; reflexivity.
+Qed.
+
+Lemma flat_map_map_out {A B C} (h : B -> C) (F : A -> list B) l :
+  flat_map (fun a => map h (F a)) l = map h (flat_map F l).
+Proof.
+  induction l as [|a l IH]; cbn [flat_map map]; [reflexivity|]. rewrite map_app, IH. reflexivity.
+Qed.
+
+Lemma flat_map_app_perm {A B} (F G : A -> list B) l :
+  Permutation (flat_map (fun a => F a ++ G a) l) (flat_map F l ++ flat_map G l).
+Proof.
+  induction l as [|a l IH]; cbn [flat_map]; [reflexivity|].
+  rewrite IH. rewrite <- !app_assoc. apply Permutation_app_head.
+  rewrite !app_assoc. apply Permutation_app_tail. apply Permutation_app_comm.
+Qed.
+
+Lemma flat_map_swap {A B C} (f : A -> B -> list C) la lb :
+  Permutation (flat_map (fun a => flat_map (fun b => f a b) lb) la)
+              (flat_map (fun b => flat_map (fun a => f a b) la) lb).
+Proof.
+  induction la as [|a la IH]; cbn [flat_map].
+  - rewrite flat_map_nil. reflexivity.
+  - rewrite IH. symmetry. apply flat_map_app_perm.
+Qed.
+
+Definition opt_list {A} (f : entry -> list A) (o : option entry) : list A :=
+  match o with Some e => f e | None => [] end.
+
+Lemma existsb_name_in n ms : existsb (name_eqb n) ms = true <-> In (lower n) (map lower ms).
+Proof.
+  rewrite existsb_exists, in_map_iff. unfold name_eqb. split.
+  - intros (m & Hm & E). apply String.eqb_eq in E. eauto.
+  - intros (m & E & Hm). exists m. split; [exact Hm|]. apply String.eqb_eq. congruence.
+Qed.
+
+Lemma lookup_one_perm {A} (f : entry -> list A) m ms : forall st,
+  NoDup (map lname st) -> ~ In (lower m) (map lower ms) ->
+  Permutation (flat_map (fun e => if existsb (name_eqb (e_name e)) (m :: ms) then f e else []) st)
+              (opt_list f (lookup st m) ++
+               flat_map (fun e => if existsb (name_eqb (e_name e)) ms then f e else []) st).
+Proof.
+  induction st as [|e r IH]; intros Hn Hm; [reflexivity|].
+  inversion Hn as [|? ? Hnotin Hn']; subst.
+  cbn [flat_map existsb]. unfold lookup. cbn [find]. fold (lookup r m).
+  destruct (name_eqb (e_name e) m) eqn:E; cbn [orb opt_list].
+  - assert (existsb (name_eqb (e_name e)) ms = false) as ->.
+    { destruct (existsb (name_eqb (e_name e)) ms) eqn:X; [|reflexivity].
+      apply existsb_name_in in X. unfold name_eqb in E. apply String.eqb_eq in E. rewrite E in X. contradiction. }
+    cbn [app]. apply Permutation_app_head.
+    erewrite flat_map_ext_in; [reflexivity|]. intros x Hx. cbn [existsb].
+    assert (name_eqb (e_name x) m = false) as ->; [|reflexivity].
+    unfold name_eqb in *. apply String.eqb_eq in E. apply String.eqb_neq. intros Ex.
+    apply Hnotin. unfold lname at 1. rewrite E, <- Ex. apply (in_map lname). exact Hx.
+  - rewrite (IH Hn' Hm). rewrite !app_assoc. apply Permutation_app_tail. apply Permutation_app_comm.
+Qed.
+
+Lemma lookup_flat_perm {A} (f : entry -> list A) st :
+  NoDup (map lname st) -> forall ms, NoDup (map lower ms) ->
+  Permutation (flat_map (fun m => opt_list f (lookup st m)) ms)
+              (flat_map (fun e => if existsb (name_eqb (e_name e)) ms then f e else []) st).
+Proof.
+  intros Hn. induction ms as [|m ms IH]; cbn [map]; intros Hms.
+  - cbn [flat_map existsb]. rewrite flat_map_nil. reflexivity.
+  - inversion Hms as [|? ? Hnotin Hms']; subst. cbn [flat_map].
+    rewrite (lookup_one_perm f m ms st Hn Hnotin). apply Permutation_app_head. apply IH. exact Hms'.
+Qed.
+
+Lemma match_names_lower_nodup n : NoDup (map lower (match_names n)).
+Proof.
+  unfold match_names. destruct (is_wild n) eqn:A; cbn [map]; repeat constructor; cbn [In]; try tauto.
+  intros [E|[]]. apply is_wild_false in A. apply A. apply lower_wild_inv. rewrite <- E. reflexivity.
+Qed.
+
+Lemma match_names_nodup n : NoDup (match_names n).
+Proof.
+  unfold match_names. destruct (is_wild n) eqn:A; repeat constructor; cbn [In]; try tauto.
+  intros [E|[]]. apply is_wild_false in A. congruence.
+Qed.
+
+(* Store.IntentionMatch by destination = the sorted list of the stored intentions whose destination
+   pattern covers the name *)
+Theorem cmatch_dst_perm st d :
+  store_ok st -> coherent (enames st ++ [d]) ->
+  Permutation (cmatch_dst st d) (filter (fun j => wild_or_eq (i_dname j) d) (call st)).
+Proof.
+  intros [Hnd Hok] C. unfold cmatch_dst. rewrite sort_ixns_perm.
+  change (fun m => match lookup st m with Some e => to_ixns e | None => [] end)
+    with (fun m => opt_list to_ixns (lookup st m)).
+  rewrite (lookup_flat_perm to_ixns st Hnd _ (match_names_lower_nodup d)).
+  unfold call. rewrite filter_flat_map.
+  erewrite flat_map_ext_in; [reflexivity|]. intros e He. cbn beta.
+  assert (existsb (name_eqb (e_name e)) (match_names d) = wild_or_eq (e_name e) d) as ->.
+  { destruct (wild_or_eq (e_name e) d) eqn:W.
+    - apply wild_or_eq_true in W. apply existsb_name_in. apply in_map_iff.
+      destruct W as [W|W].
+      + exists wild. split; [rewrite W; reflexivity|]. apply in_match_names. left; reflexivity.
+      + destruct (is_wild d) eqn:A.
+        * exists wild. apply is_wild_true in A. split; [congruence|apply in_match_names; left; reflexivity].
+        * exists d. split; [congruence|apply in_match_names; right; auto].
+    - destruct (existsb (name_eqb (e_name e)) (match_names d)) eqn:X; [|reflexivity].
+      apply existsb_name_in in X. apply in_map_iff in X as (m & E & Hm).
+      assert (wild_or_eq (e_name e) d = true); [|congruence]. apply wild_or_eq_true.
+      apply in_match_names in Hm as [->|[_ ->]].
+      + left. apply lower_wild_inv. symmetry. exact E.
+      + right. apply C; [apply in_or_app; left; apply in_map; exact He|apply in_or_app; right; left; reflexivity|congruence]. }
+  unfold to_ixns. rewrite filter_map_comm. cbn [to_ixn i_dname].
+  destruct (wild_or_eq (e_name e) d).
+  - f_equal. symmetry. apply filter_true_id.
+  - rewrite filter_false_nil. reflexivity.
+Qed.
+
+(* what readSourceIntentionsFromConfigEntriesTxn really selects: the source NAME is covered and the
+   destination's entry has a LOCAL source of that name (the peer of the selected source is not looked at) *)
+Definition src_sel (all : list ixn) (s : string) (j : ixn) : bool :=
+  existsb (fun m => String.eqb (i_sname j) m &&
+                    existsb (fun j' => String.eqb (i_peer j') "" && String.eqb (i_sname j') m
+                                       && String.eqb (i_dname j') (i_dname j)) all)%bool
+          (match_names s).
+
+Lemma has_local_src_call st e m x :
+  store_ok st -> In e st ->
+  existsb (fun j' => String.eqb (i_peer j') "" && String.eqb (i_sname j') m
+                     && String.eqb (i_dname j') (i_dname (to_ixn e x)))%bool (call st)
+  = has_local_src e m.
+Proof.
+  intros [Hnd _] He. cbn [to_ixn i_dname].
+  destruct (has_local_src e m) eqn:L.
+  - unfold has_local_src in L. apply existsb_exists in L as (y & Hy & Ey).
+    apply andb_true_iff in Ey as [E1 E2].
+    apply existsb_exists. exists (to_ixn e y). split; [apply in_call; eauto|].
+    cbn [to_ixn i_peer i_sname i_dname]. rewrite E1, E2, String.eqb_refl. reflexivity.
+  - destruct (existsb _ (call st)) eqn:X; [|reflexivity].
+    apply existsb_exists in X as (j' & Hj' & Ej'). rewrite !andb_true_iff in Ej'.
+    destruct Ej' as [[E1 E2] E3]. apply String.eqb_eq in E3.
+    apply in_call in Hj' as (e' & y & He' & Hy & ->). cbn [to_ixn i_peer i_sname i_dname] in *.
+    assert (e' = e) as -> by (apply (nodup_map_inj lname st); try assumption; unfold lname; congruence).
+    assert (has_local_src e m = true); [|congruence].
+    unfold has_local_src. apply existsb_exists. exists y. split; [exact Hy|]. rewrite E1, E2. reflexivity.
+Qed.
+
+Theorem cmatch_src_perm st s :
+  store_ok st ->
+  Permutation (cmatch_src st s) (filter (src_sel (call st) s) (call st)).
+Proof.
+  intros Hst. unfold cmatch_src. rewrite sort_ixns_perm.
+  rewrite flat_map_swap. unfold call at 2. rewrite filter_flat_map.
+  apply flat_map_perm_ext. intros e He. cbn beta.
+  (* per entry *)
+  transitivity (map (to_ixn e)
+                  (filter (fun x => existsb (fun m => String.eqb (s_name x) m && has_local_src e m)%bool (match_names s))
+                          (e_srcs e))).
+  - erewrite flat_map_ext_in with
+      (g := fun m => map (to_ixn e) (filter (fun x => String.eqb (s_name x) m && has_local_src e m)%bool (e_srcs e))).
+    + rewrite flat_map_map_out. apply Permutation_map.
+      apply (flat_map_filter_perm (fun m x => String.eqb (s_name x) m && has_local_src e m)%bool).
+      * apply match_names_nodup.
+      * intros x p q _ _ _ Hp Hq. apply andb_true_iff in Hp as [Hp _]. apply andb_true_iff in Hq as [Hq _].
+        apply String.eqb_eq in Hp, Hq. congruence.
+    + intros m _. destruct (has_local_src e m).
+      * f_equal. apply filter_ext. intros x. rewrite andb_true_r. reflexivity.
+      * erewrite filter_ext with (g := fun _ => false); [rewrite filter_false_nil; reflexivity|].
+        intros x. rewrite andb_false_r. reflexivity.
+  - unfold to_ixns. rewrite filter_map_comm. apply Permutation_map.
+    erewrite filter_ext; [reflexivity|]. intros x. unfold src_sel.
+    cbn [to_ixn i_sname]. f_equal.
+    (* the inner test over all stored intentions is has_local_src of this entry *)
+    clear - Hst He. induction (match_names s) as [|m ms IH]; cbn [existsb]; [reflexivity|].
+    rewrite IH. f_equal. f_equal. symmetry. apply (has_local_src_call st e m x Hst He).
 Qed.
